@@ -45,7 +45,16 @@ func TestWorker(t *testing.T) {
 	if err != nil {
 		t.Skip(err)
 	}
-	if job.Property == "C05" || job.Property == "C06" || strings.HasPrefix(job.Profile, "cluster-") {
+	// C05 has a store-level sub-profile (chunked searches racing with retention) on every fourth seed
+	storeC05 := job.Property == "C05" && job.Profile == "" && job.Mode != "replay" && job.Seed%4 == 3
+	if job.Mode == "replay" && job.Property == "C05" {
+		var probe struct {
+			Profile string `json:"profile"`
+		}
+		json.Unmarshal(job.Case, &probe)
+		storeC05 = probe.Profile == "c05-retention"
+	}
+	if !storeC05 && (job.Property == "C05" || job.Property == "C06" || strings.HasPrefix(job.Profile, "cluster-")) {
 		var cc *ClusterCase
 		switch {
 		case job.Mode == "replay":
